@@ -15,3 +15,15 @@ CLAIMED['C10'] = dict(
     note=('Trusted: CPython set/dict semantics, re._parser, the hierarchy grammar transcribed in sa/roles.py, no monkey-patching '
           'or subclass overriding. Header syntax is C11, not decided here.'),
     technique='constant folding + finite-domain abstract interpretation (typestate/dominance) + regex language enumeration')
+
+CLAIMED['C11'] = dict(
+    category='proof',
+    text=('Whole grammar clause. The effective accepted header language (header regex + match mode, option group, split '
+          'separators, key/value regex guards as extracted by abstract interpretation of the header function) is built as a '
+          'DFA and compared for equivalence with the DFA of the specification grammar over all byte strings without LF; '
+          'plus: the regex is applied to the line minus exactly one newline; no sink on the header path can raise anything but '
+          'DiffXParseError; values are stored verbatim with integer conversion covering -?[0-9]+.'),
+    note=('Trusted: re._parser/sre semantics of match, fullmatch and $, bytes.split (split lemma checked on automata), the '
+          'grammar transcribed from section-format.rst. Acceptance conditions that are not regex guards on keys/values '
+          '(none today) would not be modelled. Whether 1_0 is an integer is left open.'),
+    technique='regex->DFA language equivalence with shortest witnesses + exception-escape (sink table) analysis')
